@@ -95,7 +95,7 @@ class Spec(PropSpec):
         "symlinks, hard links, permissions, timestamps, page cache, capacity, O_DIRECT and the fault probabilities are outside the model (all faults 0)",
         "the order of directory listings is not compared (sets only; order is C01's business)",
         "ENOTDIR / EISDIR for a lookup that meets the wrong kind of entry may be reported by the implementation as NotFound",
-        "io_uring front-end is covered by C18",
+        "io_uring write / read / fsync are issued on descriptors the shims opened and reaped at once; ring scheduling, linking and completion order are C18's business",
     ]
     partial_note = ("two refinement theorems, both for every history of any length: c10_refines_partial (every operation except "
                     "create_dir_all / remove_dir_all; hypothesis: no class of FsSafe.v, which excludes every successful rename of a "
